@@ -163,7 +163,7 @@ theorem wanEgress_pkt (rt : RouteIn → Int) (w : World) (s : Skb) (l2 : Bool) (
 /-- the socket lookup only looks at `PARAM` -/
 theorem lanLocalSocket_congr {w1 w : World} (h : w1.rest = w.rest) (s : Skb) (p : Pkt) :
     lanLocalSocket w1 s p = lanLocalSocket w s p := by
-  unfold lanLocalSocket; rw [rest_param h]
+  unfold lanLocalSocket skLookup; rw [rest_param h]
 
 theorem lanLocalSocket_tcp_syn (w : World) (s : Skb) (p : Pkt) (ht : p.l4proto = IPPROTO_TCP)
     (hs : p.syn = true) (ha : p.ack = false) : lanLocalSocket w s p = false := by
@@ -361,6 +361,23 @@ theorem wanUdpRouted_untracked_conn (rt : RouteIn → Int) (w : World) (s : Skb)
   simp only [hdp, if_true]
   unfold setConn
   exact ⟨_, alookup_areplace_self _ _ _ _ hl, rfl, rfl, rfl, rfl, rfl, rfl⟩
+
+theorem wanUdpRouted_untracked_tracked (rt : RouteIn → Int) (w : World) (s : Skb) (l2 : Bool) (p : Pkt)
+    (pp : Option PidPname) (cs : ConnState) (hw : cs.wanDir = false) (hr0 : cs.hasRouting = 0)
+    (hr : 0 ≤ rt (wanRouteIn s p false (ppName pp) p.ethSrc)) (hdp : (p.tuples.five.dport != 53) = true)
+    (hl : alookup w.conn p.tuples.five = some cs) :
+    ∃ cs', alookup (wanUdpRouted rt w s l2 p pp (some cs)).1.conn p.tuples.five = some cs' ∧
+      cs'.decision = unpackRoute (rt (wanRouteIn s p false (ppName pp) p.ethSrc)) ∧ cs'.hasRouting ≠ 0 ∧
+      cs'.wanDir = false := by
+  unfold wanUdpRouted
+  have hneg : ¬ rt (wanRouteIn s p false (ppName pp) p.ethSrc) < 0 := by omega
+  dsimp only
+  rw [if_neg (by rw [hw]; decide), if_neg (by rw [hr0]; decide), if_neg hneg]
+  simp only [wanVerdict_conn]
+  unfold wanUdpCache
+  simp only [hdp, if_true]
+  unfold setConn
+  exact ⟨_, alookup_areplace_self _ _ _ _ hl, rfl, Nat.succ_ne_zero 0, hw⟩
 
 theorem wanUdpRouted_tracked_fate (rt : RouteIn → Int) (w : World) (s : Skb) (l2 : Bool) (p : Pkt)
     (pp : Option PidPname) (cs : ConnState) (ht : p.l4proto = IPPROTO_UDP)
